@@ -504,12 +504,24 @@ pub fn c10_roundtrip(w: &mut World, cx: &mut Cx, rng: &mut Rng) {
         };
         let hi = u(usd(w.pool_usd / 3 + 1));
         let idx = u(prices.index_token_price.max);
+        let pp = &w.market.config.position_params;
+        let min_size = u(*pp.min_position_size_usd());
+        let min_cv = u(*pp.min_collateral_value());
         let size = match rng.below(4) {
-            0 => t(idx.saturating_mul(rng.range_u128(1, 8)).saturating_add(rng.below_u128(idx + 1))),
-            _ => t(u(UNIT) + rng.log_u128(hi)),
+            0 => {
+                let k_min = (min_size / idx.max(1)).saturating_add(1);
+                t(idx
+                    .saturating_mul(k_min.saturating_add(rng.range_u128(0, 7)))
+                    .saturating_add(rng.below_u128(idx + 1)))
+            }
+            _ => t(min_size.max(u(UNIT)) + rng.log_u128(hi)),
         };
         let lev = 1 + rng.log_u128(120);
-        let collateral = t((u(size) / lev) / u(cp.min).max(1) + 1 + rng.below_u128(3));
+        let mut coll_value = u(size) / lev;
+        if rng.chance(9, 10) {
+            coll_value = coll_value.max(min_cv + min_cv / 4 * rng.range_u128(1, 8) + u(size) / 400);
+        }
+        let collateral = t(coll_value / u(cp.min).max(1) + 1 + rng.below_u128(3));
         cx.m.eval();
         let inc = match do_increase(&mut m, &mut p, prices, collateral, size, None) {
             Ok(r) => r,
@@ -658,6 +670,16 @@ pub fn c11_probe(w: &mut World, cx: &mut Cx, rng: &mut Rng) {
             let mut pr2 = w.prices;
             pr1.index_token_price = Price { min: t(a_min), max: t(a_max) };
             pr2.index_token_price = Price { min: t(b_min), max: t(b_max) };
+            // markets whose long token is the index token: half of the probes move both together
+            let together = w.base.long_is_index
+                && w.prices.long_token_price.min == w.prices.index_token_price.min
+                && w.prices.long_token_price.max == w.prices.index_token_price.max
+                && rng.bool();
+            if together {
+                pr1.long_token_price = pr1.index_token_price;
+                pr2.long_token_price = pr2.index_token_price;
+                cx.count("c11_pairs_long_token_moves_with_index");
+            }
             let full = p.size_in_usd;
             let partial: T = match rng.below(4) {
                 0 => full,
